@@ -40,7 +40,7 @@ CFGS = {
     "log8": st.builds(lambda w, d, mc, nr: {"kind": "log8", "width": w, "depth": d, "max_count": mc, "num_reserved": nr}, ODD, st.sampled_from([1, 3, 5, 2]), st.sampled_from([CEIL, 1000]), st.sampled_from([15, 0, 3])),
     "log16": st.builds(lambda w, d, mc, nr: {"kind": "log16", "width": w, "depth": d, "max_count": mc, "num_reserved": nr}, ODD, st.sampled_from([1, 3, 5, 2]), st.sampled_from([CEIL, 70000]), st.sampled_from([1023, 0, 3])),
     "hh": st.builds(lambda w, d, m, phi, at: {"kind": "hh", "width": w, "depth": d, "max_key_len": m, "phi": phi, **({"argtype": at} if at else {})}, st.sampled_from([1, 3, 5, 7, 2, 70]), st.sampled_from([1, 3, 2, 4]), st.sampled_from([1, 3, 5, 7, 16]), st.sampled_from([None, 0.2]), st.sampled_from([None, None, None, "u8", "i8", "u32", "i64", "u64", "i32"])),
-    "hll": st.builds(lambda p, s: {"kind": "hll", "p": p, "seed": s}, st.sampled_from([7, 8, 11]), st.sampled_from([0, 2**63 + 9])),
+    "hll": st.builds(lambda p, s, at: {"kind": "hll", "p": p, "seed": s, **({"argtype": at} if at else {})}, st.sampled_from([7, 8, 11]), st.sampled_from([0, 2**63 + 9]), st.sampled_from([None, None, None, "u8", "i8", "u16", "i64", "u64", "i32"])),
 }
 
 
